@@ -1,6 +1,6 @@
 (* Correspondence cases for C18: observed behaviour of the three real components. *)
 From Coq Require Import ZArith Bool List.
-From V Require Import Base.GoInt gen.Windows Temporal.WindowModel.
+From V Require Import Base.GoInt Base.CaseLib gen.Windows Temporal.WindowModel.
 Import ListNotations.
 Open Scope Z_scope.
 
@@ -8,15 +8,6 @@ Inductive case :=
 | CPoint (t : Z) (iv : interval) (ctfe_ok : bool) (client_ok : option bool)
 | CLogList (t s e : Z) (kept : bool)
 | CShards (shards : list interval) (ts : list Z) (obs : option (list (option nat))).
-
-Definition opt_eqb {A} (eqb : A -> A -> bool) (a b : option A) : bool :=
-  match a, b with Some x, Some y => eqb x y | None, None => true | _, _ => false end.
-Fixpoint list_eqb {A} (eqb : A -> A -> bool) (a b : list A) : bool :=
-  match a, b with
-  | [], [] => true
-  | x :: a', y :: b' => eqb x y && list_eqb eqb a' b'
-  | _, _ => false
-  end.
 
 Definition model_client_point (t : Z) (iv : interval) : option bool :=
   match new_temporal [iv] with
